@@ -1659,6 +1659,10 @@ pub fn run(ctx: &Ctx) {
          steps run in parallel shards)",
     );
     ctx.shrink_iters.store(48, std::sync::atomic::Ordering::Relaxed);
+    if std::env::var("C17_ONLY").as_deref() == Ok("cross") || std::env::var("C17X_MEASURE").is_ok() {
+        super::c17x::run(ctx);
+        return;
+    }
     if let Ok(m) = std::env::var("C17_MEASURE") {
         measure(&m);
         return;
@@ -1687,6 +1691,10 @@ pub fn run(ctx: &Ctx) {
         let o = run_case(c, None);
         report_of(c, o)
     });
+    // cross-configuration aggregation and ZK layer configurations (sub-checks cross-histories, cross-engineered)
+    if std::env::var("C17_ONLY").is_err() {
+        super::c17x::run(ctx);
+    }
 }
 
 pub const RULE_ENGINEERED: &str = "fixed list of engineered histories through the same interpreter and oracle, for both fields and log_blowup 1-2: caches offered to a different circuit with equal fingerprint counters (left/right swapped; AIR twin), to a circuit that differs in witness_count only (query PoW bits changed between the calls), to the same circuit with other statements / other packing / after a prover-side FRI change, chains of three layers with the cache of the previous layer, invalid inputs with a same-circuit cache; every history has >= 2 proving steps and >= 1 reuse";
